@@ -55,10 +55,21 @@ class Current(pd.Series):
         if isinstance(other, Current):
             return Current(self.add(other, fill_value=0))
         else:
-            TypeError("Must be of type Current.")
+            raise TypeError("Must be of type Current.")
 
     # Allow for right addition as well.
     __radd__ = __add__
+
+    def __mul__(self, other):
+        """ Return new Current which is self scaled by other (a scalar).
+
+        Returns:
+            Current: self * other
+        """
+        return Current(super().__mul__(other))
+
+    # Allow for multiplication by a scalar on the left as well.
+    __rmul__ = __mul__
 
     def __sub__(self, other):
         """ Return Current which is self minus other.
